@@ -15,6 +15,7 @@ package extension
 // goroutines are not interleaved (D2).  The engine records the call in the ghost log of the broker
 // (count and event pointers).  The loop itself is verified on the instantiations.
 //@ func (*AsyncEventBroker).Emit
+//@   attr leaflock=1
 //@   trusted
 //@   attr log-count=ghost_nemitted
 //@   attr log-arg=ghost_emitted
